@@ -204,6 +204,21 @@ pub fn run(tier: Tier, seed: u64) -> i32 {
                     });
                     run.eval(1);
                     run.count("limit_settings_tried", 1);
+                    // the same limits configured through the parser's setters decide the same way
+                    let via_setters = guarded(|| {
+                        let mut parser = b.scheme.parser();
+                        parser.regex_set_compiled_size_limit(lim);
+                        parser.regex_set_dfa_size_limit(dfa);
+                        (parser.regex_get_compiled_size_limit(), parser.regex_get_dfa_size_limit(), parser.parse(&text).is_ok())
+                    });
+                    let accepted_via_settings = got.as_ref().map(|r| r.is_ok()).ok();
+                    if via_setters.as_ref().ok().map(|x| *x) != accepted_via_settings.map(|a| (lim, dfa, a)) {
+                        run.violation(
+                            format!("{ID}:limit-routes:{lim}:{dfa}:{text}"),
+                            format!("{text:?}: limits ({lim}, {dfa}) through ParserSettings give accepted={accepted_via_settings:?}, through the setters (limits read back, accepted) = {via_setters:?}"),
+                            json!({"kind": "c11-text", "text": text, "compiled_limit": lim, "dfa_limit": dfa}),
+                        );
+                    }
                     match got {
                         Err(pn) => run.violation(
                             format!("{ID}:limit-panic:{lim}:{dfa}:{text}"),
@@ -308,7 +323,11 @@ pub fn run(tier: Tier, seed: u64) -> i32 {
                 let got = guarded(|| {
                     let mut parser = b.scheme.parser();
                     parser.wildcard_set_star_limit(lim);
-                    parser.parse(&text).is_ok()
+                    let a = parser.parse(&text).is_ok();
+                    // the limit handed over in ParserSettings decides the same way
+                    let q = b.scheme.parser_with_settings(ParserSettings { wildcard_star_limit: lim, ..Default::default() });
+                    let bq = q.parse(&text).is_ok();
+                    if a == bq && parser.wildcard_get_star_limit() == lim && q.wildcard_get_star_limit() == lim { a } else { !want }
                 });
                 run.eval(1);
                 run.count("star_limit_cases", 1);
